@@ -103,10 +103,30 @@ def c12_strace(a):
 # C14: SanitizerCoverage trace equality, valgrind secret taint, callgrind profiles
 # ---------------------------------------------------------------------------------------------
 
-def _build_ct(a, opt=None):
-    """plain release build (opt=None) or sancov-instrumented build at the given opt-level"""
+# The crate's own Cargo profiles ([profile.dev] / [profile.release] / [profile.bench] in /repo/Cargo.toml),
+# reproduced on the harness' release profile through cargo's environment overrides. "harness" is the
+# harness workspace's own release profile (opt-level 3, 16 codegen units, no LTO).
+CRATE_PROFILES = {
+    "dev": dict(OPT_LEVEL="1", LTO="false", CODEGEN_UNITS="16"),
+    "release": dict(OPT_LEVEL="s", LTO="true", CODEGEN_UNITS="1"),
+    "bench": dict(OPT_LEVEL="3", LTO="true", CODEGEN_UNITS="1"),
+}
+
+
+def _build_ct(a, opt=None, profile=None):
+    """ct driver: plain harness release build (opt=None, profile=None), sancov-instrumented build at the
+    given opt-level (opt=...), or a build mirroring one of the crate's own profiles (profile=...; with
+    opt='sancov' also instrumented)"""
     env = dict(a["env"])
-    if opt is None:
+    if profile is not None:
+        sub = ("sancov-" if opt == "sancov" else "prof-") + profile
+        tdir = os.path.join(a["harness"], "target", sub)
+        env["CARGO_TARGET_DIR"] = tdir
+        for k, v in CRATE_PROFILES[profile].items():
+            env[f"CARGO_PROFILE_RELEASE_{k}"] = v
+        if opt == "sancov":
+            env["RUSTC_WRAPPER"] = os.path.join(a["verif"], "bin", "sancov-wrapper")
+    elif opt is None:
         tdir = os.path.join(a["harness"], "target")
     else:
         tdir = os.path.join(a["harness"], "target", f"sancov-O{opt}")
@@ -117,9 +137,71 @@ def _build_ct(a, opt=None):
     r = subprocess.run(["cargo", "build", "--release", "-p", "ct"], cwd=a["harness"], env=env,
                        stdout=subprocess.PIPE, stderr=subprocess.STDOUT, text=True)
     if r.returncode != 0:
-        raise Inconclusive(f"ct build (opt={opt}) failed: {r.stdout[-1500:]}")
-    a["log"](f"build ct opt={opt}: {time.time()-t0:.1f}s")
+        raise Inconclusive(f"ct build (opt={opt}, profile={profile}) failed: {r.stdout[-1500:]}")
+    a["log"](f"build ct opt={opt} profile={profile}: {time.time()-t0:.1f}s")
     return os.path.join(tdir, "release", "ct")
+
+
+_FN_INDEX = {}
+
+
+def _fn_index(repo):
+    """source function index of <repo>/src: file name -> [(first line, fn name)]"""
+    if repo in _FN_INDEX:
+        return _FN_INDEX[repo]
+    idx = {}
+    src = os.path.join(repo, "src")
+    for f in sorted(os.listdir(src)):
+        if not f.endswith(".rs"):
+            continue
+        fns = []
+        for i, l in enumerate(open(os.path.join(src, f), errors="replace"), 1):
+            m = re.match(r"\s*(?:pub(?:\([a-z]+\))?\s+)?(?:const\s+)?fn\s+([A-Za-z0-9_]+)", l)
+            if m:
+                fns.append((i, m.group(1)))
+        idx[f] = fns
+    _FN_INDEX[repo] = idx
+    return idx
+
+
+def _src_fn(repo, fname, line):
+    """'file.rs::fn' of a line of a crate source file (None for anything that is not crate source)"""
+    fns = _fn_index(repo).get(fname)
+    if fns is None or line <= 0:
+        return None
+    name = None
+    for i, n in fns:
+        if i <= line:
+            name = n
+    return f"{fname}::{name}"
+
+
+def _taint_chains(repo, stderr):
+    """memcheck reports -> {chain of crate source functions (innermost first, consecutive duplicates
+    merged): count}. Frames are mapped through their debug-info file:line to the enclosing source function,
+    so the chain does not depend on how the compiler inlined or named things; frames in core / the driver
+    are skipped."""
+    lines = stderr.splitlines()
+    out = {}
+    for i, l in enumerate(lines):
+        if "Conditional jump or move depends on uninitialised" in l or "Use of uninitialised value" in l:
+            ch = []
+            for x in lines[i + 1:i + 14]:
+                m = re.search(r"(?:at|by) 0x[0-9A-F]+: (.+?) \((.*?)\)\s*$", x)
+                if not m:
+                    break
+                loc = m.group(2)
+                mm = re.search(r"([A-Za-z0-9_]+\.rs):(\d+)", loc)
+                if not mm or "/rustc/" in loc or "library/" in loc or m.group(1).startswith("ct::"):
+                    continue
+                s_ = _src_fn(repo, mm.group(1), int(mm.group(2)))
+                if s_ and (not ch or ch[-1] != s_):
+                    ch.append(s_)
+            out[tuple(ch)] = out.get(tuple(ch), 0) + 1
+    return out
+
+
+ALLOWED_TAINT_CHAIN = ("helpers.rs::is_in_range", "conversion.rs::bit_unpack", "hashing.rs::expand_mask")
 
 
 def _symbolise(exe, runtime_pc, anchor_runtime):
@@ -171,8 +253,11 @@ def c14_sancov(a):
                         f.write(e["xi"] + "".join(f"{rg.randrange(256):02x}" for _ in range(32)) + "\n")
                 extras[int(st)] = (path, len(lst[:48]))
     counters["rare_ctest_keygen_seeds"] = {str(k): v[1] for k, v in extras.items()}
+    if tier != "quick":
+        # the crate's own release and bench profiles (LTO, one codegen unit), instrumented
+        opts += ["s-lto-release-profile", "3-lto-bench-profile"]
     for opt in opts:
-        exe = _build_ct(a, opt)
+        exe = _build_ct(a, "sancov", opt.split("-")[2]) if opt.endswith("-profile") else _build_ct(a, opt)
         # ---- kernels alone ----
         kout = os.path.join(a["work"], f"c14-kernels-O{opt}.json")
         r = subprocess.run(pre + [exe, "kernels", str(seed), str(variants), kout], capture_output=True, text=True, timeout=3600)
@@ -255,118 +340,213 @@ def c14_taint(a):
     """valgrind memcheck as a secret-taint monitor over the kernels (machine-code level)"""
     if not shutil.which("valgrind"):
         raise Inconclusive("valgrind not available")
-    exe = _build_ct(a, None)
+    profiles = [None, "release"] if a["tier"] == "quick" else [None, "dev", "release", "bench"]
     t0 = time.time()
-    out = os.path.join(a["work"], "c14-taint.json")
-    r = subprocess.run(["valgrind", "--error-exitcode=0", "--num-callers=12", exe, "taint", str(a["seed"]), out],
-                       capture_output=True, text=True, timeout=3600)
-    if not os.path.exists(out):
-        raise Inconclusive(f"taint run failed: {r.stderr[-400:]}")
-    td = json.load(open(out))
-    if not td.get("running_on_valgrind"):
-        raise Inconclusive("client requests not honoured (not running on valgrind?)")
-    cur, reports = None, {}
-    lines = r.stderr.splitlines()
-    for i, line in enumerate(lines):
-        if line.startswith("TAINT-KERNEL-BEGIN"):
-            cur = line.split()[1]
-        elif line.startswith("TAINT-KERNEL-END"):
-            cur = None
-        elif ("Conditional jump or move depends on uninitialised" in line or "Use of uninitialised value" in line) and cur:
-            frames = [re.sub(r"==\d+==\s+", "", x) for x in lines[i + 1:i + 5]]
-            reports.setdefault(cur, []).append((line.split("== ")[-1], frames))
-    violations = []
-    for k, rs in reports.items():
-        violations.append(dict(signature=f"C14|secret-taint|{k}",
-                               detail=f"memcheck: {len(rs)} secret-dependent branch/address reports inside kernel {k}: {rs[0][0]} at {' | '.join(rs[0][1][:3])}",
-                               replay=dict(kind="c14-taint", kernel=k, seed=a["seed"])))
-    n = len(td["kernels"])
+    violations, counters, samples = [], {}, []
+    evals = 0
+
+    def one(prof):
+        exe = _build_ct(a, None, prof)
+        out = os.path.join(a["work"], f"c14-taint-{prof or 'harness'}.json")
+        if os.path.exists(out):
+            os.remove(out)
+        r = subprocess.run(["valgrind", "--error-exitcode=0", "--num-callers=12", exe, "taint", str(a["seed"]), out],
+                           capture_output=True, text=True, timeout=3600)
+        return prof, out, r
+    from concurrent.futures import ThreadPoolExecutor
+    with ThreadPoolExecutor(max_workers=4) as ex:
+        results = list(ex.map(one, profiles))
+    for prof, out, r in results:
+        pname = prof or "harness"
+        if not os.path.exists(out):
+            raise Inconclusive(f"taint run failed ({pname}): {r.stderr[-400:]}")
+        td = json.load(open(out))
+        if not td.get("running_on_valgrind"):
+            raise Inconclusive("client requests not honoured (not running on valgrind?)")
+        cur, reports = None, {}
+        lines = r.stderr.splitlines()
+        for i, line in enumerate(lines):
+            if line.startswith("TAINT-KERNEL-BEGIN"):
+                cur = line.split()[1]
+            elif line.startswith("TAINT-KERNEL-END"):
+                cur = None
+            elif ("Conditional jump or move depends on uninitialised" in line or "Use of uninitialised value" in line) and cur:
+                frames = [re.sub(r"==\d+==\s+", "", x) for x in lines[i + 1:i + 5]]
+                reports.setdefault(cur, []).append((line.split("== ")[-1], frames))
+        for k, rs in reports.items():
+            sig = f"C14|secret-taint|{k}" if prof is None else f"C14|secret-taint|{k}|{prof}"
+            violations.append(dict(signature=sig,
+                                   detail=f"memcheck ({pname} profile): {len(rs)} secret-dependent branch/address reports inside kernel {k}: {rs[0][0]} at {' | '.join(rs[0][1][:3])}",
+                                   replay=dict(kind="c14-taint", kernel=k, seed=a["seed"], profile=pname)))
+        n = len(td["kernels"])
+        evals += n * 5
+        counters[f"taint_kernels_{pname}"] = n
+        counters[f"taint_reports_{pname}"] = sum(len(v) for v in reports.values())
+        samples.append(dict(profile=pname, kernels_tainted=td["kernels"], variants_per_kernel=5, memcheck_reports_inside_kernels=sum(len(v) for v in reports.values())))
     return dict(property_id="C14", stage="c14-taint", build="release+memcheck", tier=a["tier"], seed=a["seed"], rule="", exhaustive=False,
-                evaluations=n * 5, distinct_nontrivial=n * 5,
-                samples=[dict(kernels_tainted=td["kernels"], variants_per_kernel=5, memcheck_reports_inside_kernels=sum(len(v) for v in reports.values()))],
-                counters=dict(taint_kernels=n, taint_reports=sum(len(v) for v in reports.values())), violations=violations, inconclusive=[], wall_s=time.time() - t0)
+                evaluations=evals, distinct_nontrivial=evals, samples=samples[:2],
+                counters=counters, violations=violations, inconclusive=[], wall_s=time.time() - t0)
+
+
+def _cg_parse(path):
+    """callgrind profile (--dump-instr=yes --collect-jumps=yes) -> (canonical digest, totals line,
+    exclusive cost per (file, line), jump statistics per (file, line)).
+
+    Canonical form: header lines dropped, callgrind's name-compression ids "(n)" resolved to names (ids are
+    handed out in order of first encounter, which depends on code run before the collection window), blocks
+    keyed by (object, function) and sorted. Jump statistics (jcnd=/jump=) *inside libc* are dropped: the
+    taken-counter of one size-class branch of glibc's memcpy was observed to vary (84..87 of 374) between
+    inputs on the unchanged tree while every instruction count - also inside memcpy - and every call-site
+    cost was identical, which a real size change cannot produce (the two paths differ by two instructions):
+    an accounting artefact. Instruction costs everywhere and the jump statistics of all non-libc code stay
+    in the comparison."""
+    maps = {"file": {}, "fn": {}, "ob": {}}
+    kind = {"fl": "file", "fi": "file", "fe": "file", "cfi": "file", "cfl": "file", "fn": "fn", "cfn": "fn", "ob": "ob", "cob": "ob"}
+    blocks, cur_ob, cur_key = {}, "", None
+    fl_file = cur_file = None
+    addr = line = 0
+    after_calls, after_jump = False, None
+    cost, jumps = {}, {}
+    tot = ""
+
+    def pos(tok, prev, hexa):
+        if tok == "*":
+            return prev
+        if tok[0] in "+-":
+            d = int(tok[1:], 16 if hexa else 10)
+            return prev + d if tok[0] == "+" else prev - d
+        return int(tok, 16 if hexa else 10)
+    for l in open(path):
+        l = l.rstrip("\n")
+        if l.startswith(("totals:", "summary:")) and not tot:
+            tot = l.strip()
+        if not l or re.match(r"^(pid|cmd|desc|creator|part|thread|# callgrind|version|positions|events|summary|totals):?", l):
+            continue
+        m = re.match(r"^(fl|fi|fe|cfi|cfl|fn|cfn|ob|cob)=\((\d+)\)(?: (.*))?$", l)
+        if m:
+            k, i, name = m.group(1), m.group(2), m.group(3)
+            mp = maps[kind[k]]
+            if name is not None:
+                mp[i] = name
+            l = f"{k}={mp.get(i, '?')}"
+            if k == "fl":
+                fl_file = cur_file = mp.get(i, "?")
+            elif k in ("fi", "fe"):
+                cur_file = mp.get(i, "?")
+            if k == "ob":
+                cur_ob = mp.get(i, "?")
+                continue
+            if k == "fn":
+                cur_key = (cur_ob, mp.get(i, "?"))
+                cur_file = fl_file
+                blocks.setdefault(cur_key, [])
+                continue
+        if cur_key is None:
+            continue
+        in_libc = "libc" in cur_key[0]
+        if not (in_libc and l.startswith(("jcnd=", "jump="))):
+            blocks[cur_key].append(l)
+        # line-level attribution (diagnosis / signature only)
+        if m:
+            continue
+        if l.startswith("calls="):
+            after_calls = True
+            continue
+        if l.startswith(("jcnd=", "jump=")):
+            after_jump = l.split(" ")[0]
+            continue
+        t = l.split()
+        if len(t) < 2:
+            continue
+        try:
+            addr, line = pos(t[0], addr, True), pos(t[1], line, False)
+        except ValueError:
+            continue
+        if after_jump is not None:
+            if not in_libc:
+                jumps.setdefault((cur_file, line), []).append(after_jump)
+            after_jump = None
+            if len(t) == 2:
+                continue
+        if after_calls:
+            after_calls = False
+            continue
+        if len(t) >= 3:
+            cost[(cur_file, line)] = cost.get((cur_file, line), 0) + int(t[2])
+    body = [f"{k}\n" + "\n".join(v) + "\n" for k, v in sorted(blocks.items())]
+    return hashlib.sha256("".join(body).encode()).hexdigest(), tot, cost, jumps
 
 
 def c14_callgrind(a):
-    """machine-level cross-check of the pipeline: per-instruction and per-branch profiles must be identical"""
+    """machine-level cross-check of the pipeline: per-instruction and per-branch profiles must be identical.
+    On the harness build and on a build mirroring the crate's own release profile (opt-level s, LTO, one
+    codegen unit); a difference is localised to the crate source functions whose per-line instruction
+    counts or branch statistics differ."""
     if not shutil.which("valgrind"):
         raise Inconclusive("valgrind not available")
-    exe = _build_ct(a, None)
+    repo = a.get("repo", "/repo")
+    profiles = [None, "release", "bench"]
+    exes = {p: _build_ct(a, None, p) for p in profiles}
     t0 = time.time()
     import random
     rnd = random.Random(a["seed"])
     n = 8 if a["tier"] == "quick" else 32
     violations, counters, samples = [], {}, []
     evals = 0
-    for st in (44, 65, 87):
-        inputs = ["00" * 64, "ff" * 64] + ["".join(f"{rnd.randrange(256):02x}" for _ in range(64)) for _ in range(n - 2)]
-        def one(i_hex):
-            i, hx = i_hex
-            out = os.path.join(a["work"], f"c14-cg-{st}-{i}.out")
-            r = subprocess.run(["valgrind", "--tool=callgrind", "--dump-instr=yes", "--collect-jumps=yes", "--toggle-collect=ct::pipeline_call",
-                                f"--callgrind-out-file={out}", exe, "one", str(st), hx], capture_output=True, text=True, timeout=3600)
-            if r.returncode != 0 or not os.path.exists(out):
-                return None
-            # Canonical form of the profile: header lines dropped, callgrind's name-compression ids "(n)"
-            # resolved to names (ids are handed out in order of first encounter, which depends on code
-            # run before the collection window), blocks keyed by (object, function) and sorted.
-            # Jump statistics (jcnd=/jump=) *inside libc* are dropped: the taken-counter of one size-class
-            # branch of glibc's memcpy was observed to vary (84..87 of 374) between inputs on the unchanged
-            # tree while every instruction count - also inside memcpy - and every call-site cost was
-            # identical, which a real size change cannot produce (the two paths differ by two instructions):
-            # an accounting artefact. Instruction costs everywhere and the jump statistics of all non-libc
-            # code stay in the comparison.
-            maps = {"file": {}, "fn": {}, "ob": {}}
-            kind = {"fl": "file", "fi": "file", "fe": "file", "cfi": "file", "cfl": "file", "fn": "fn", "cfn": "fn", "ob": "ob", "cob": "ob"}
-            blocks, cur_ob, cur_key = {}, "", None
-            for l in open(out):
-                l = l.rstrip("\n")
-                if not l or re.match(r"^(pid|cmd|desc|creator|part|thread|# callgrind|version|positions|events|summary|totals):?", l):
-                    continue
-                m = re.match(r"^(fl|fi|fe|cfi|cfl|fn|cfn|ob|cob)=\((\d+)\)(?: (.*))?$", l)
-                if m:
-                    k, i, name = m.group(1), m.group(2), m.group(3)
-                    mp = maps[kind[k]]
-                    if name is not None:
-                        mp[i] = name
-                    l = f"{k}={mp.get(i, '?')}"
-                    if k == "ob":
-                        cur_ob = mp.get(i, "?")
-                        continue
-                    if k == "fn":
-                        cur_key = (cur_ob, mp.get(i, "?"))
-                        blocks.setdefault(cur_key, [])
-                        continue
-                if cur_key is None:
-                    continue
-                if "libc" in cur_key[0] and l.startswith(("jcnd=", "jump=")):
-                    continue
-                blocks[cur_key].append(l)
-            body = [f"{k}\n" + "\n".join(v) + "\n" for k, v in sorted(blocks.items())]
-            tot = [l for l in open(out) if l.startswith("totals:") or l.startswith("summary:")]
-            os.remove(out)
-            return hashlib.sha256("".join(body).encode()).hexdigest(), (tot[0].strip() if tot else "")
-        from concurrent.futures import ThreadPoolExecutor
-        with ThreadPoolExecutor(max_workers=16) as ex:
-            res = list(ex.map(one, enumerate(inputs)))
-        if any(r is None for r in res):
-            raise Inconclusive("callgrind run failed")
-        evals += len(res)
-        digests = set(r[0] for r in res)
-        counters[f"callgrind_ML-DSA-{st}_profiles"] = len(res)
-        counters[f"callgrind_ML-DSA-{st}_distinct_profiles"] = len(digests)
-        samples.append(dict(set=st, inputs=len(res), distinct_profiles=len(digests), totals=res[0][1]))
-        if len(digests) != 1:
-            violations.append(dict(signature=f"C14|callgrind-profile-differs|ML-DSA-{st}",
-                                   detail=f"{len(digests)} distinct per-instruction/per-branch execution profiles over {len(res)} RNG outputs",
-                                   replay=dict(kind="c14-callgrind", set=st, seed=a["seed"])))
+    from concurrent.futures import ThreadPoolExecutor
+    for prof in profiles:
+        pname = prof or "harness"
+        exe = exes[prof]
+        for st in (44, 65, 87):
+            inputs = ["00" * 64, "ff" * 64] + ["".join(f"{rnd.randrange(256):02x}" for _ in range(64)) for _ in range(n - 2)]
+
+            def one(i_hex):
+                i, hx = i_hex
+                out = os.path.join(a["work"], f"c14-cg-{pname}-{st}-{i}.out")
+                r = subprocess.run(["valgrind", "--tool=callgrind", "--dump-instr=yes", "--collect-jumps=yes", "--toggle-collect=ct::pipeline_call",
+                                    f"--callgrind-out-file={out}", exe, "one", str(st), hx], capture_output=True, text=True, timeout=3600)
+                if r.returncode != 0 or not os.path.exists(out):
+                    return None
+                res = _cg_parse(out)
+                os.remove(out)
+                return res
+            with ThreadPoolExecutor(max_workers=16) as ex:
+                res = list(ex.map(one, enumerate(inputs)))
+            if any(r is None for r in res):
+                raise Inconclusive("callgrind run failed")
+            evals += len(res)
+            digests = set(r[0] for r in res)
+            counters[f"callgrind_{pname}_ML-DSA-{st}_profiles"] = len(res)
+            counters[f"callgrind_{pname}_ML-DSA-{st}_distinct_profiles"] = len(digests)
+            samples.append(dict(profile=pname, set=st, inputs=len(res), distinct_profiles=len(digests), totals=res[0][1]))
+            if len(digests) != 1:
+                # localise: crate source lines whose exclusive instruction count or jump statistics differ
+                lines_ = set()
+                for r in res[1:]:
+                    for tbl in (2, 3):
+                        for k in set(res[0][tbl]) | set(r[tbl]):
+                            if res[0][tbl].get(k) != r[tbl].get(k):
+                                lines_.add(k)
+                fns, src_lines = set(), []
+                for f, ln in sorted(lines_, key=str):
+                    base = os.path.basename(f or "?")
+                    if f and os.path.dirname(f).rstrip("/") == os.path.join(repo, "src").rstrip("/") and ln > 0:
+                        fn = _src_fn(repo, base, ln)
+                        if fn:
+                            fns.add(fn)
+                            src_lines.append(f"{base}:{ln}")
+                where = ",".join(sorted(fns)) if fns else "unlocalised"
+                sig = f"C14|callgrind-profile-differs|ML-DSA-{st}" if prof is None and not fns else f"C14|callgrind-profile-differs|{pname}|ML-DSA-{st}|{where}"
+                violations.append(dict(signature=sig,
+                                       detail=f"{pname} profile, ML-DSA-{st}: {len(digests)} distinct per-instruction/per-branch execution profiles over {len(res)} RNG outputs; instruction totals {sorted(set(r[1] for r in res))[:4]}; differing crate source lines: {src_lines[:8]} (functions: {where})",
+                                       replay=dict(kind="c14-callgrind", set=st, seed=a["seed"], profile=pname)))
     return dict(property_id="C14", stage="c14-callgrind", build="release+callgrind", tier=a["tier"], seed=a["seed"], rule="", exhaustive=False,
-                evaluations=evals, distinct_nontrivial=evals, samples=samples, counters=counters, violations=violations, inconclusive=[], wall_s=time.time() - t0)
+                evaluations=evals, distinct_nontrivial=evals, samples=samples[:3], counters=counters, violations=violations, inconclusive=[], wall_s=time.time() - t0)
 
 
 PLANS["C14"] = dict(
     level="exploration",
-    rule_prefix="SanitizerCoverage (edge sequence + load/store address sequence, rolling hashes and counts) of dudect_keygen_sign_with_rng for RNG outputs {0^64, FF^64, all 512 single-bit values, all 512 single-zero-bit values, seeded random, plus up to 48 RNG outputs per set whose key-generation seed is predicted by the instrumented reference (run in constant-time-test mode over 24000 / 400000 candidates) to make A*s1+s2 wrap past q or below 0 before reduction} per set, and of each secret-handling kernel alone on in-domain variants {all-min, all-max, alternating, single spike, boundary values, random}: exactly one distinct trace must be observed per function (signatures must differ across inputs). quick: opt-level 3; thorough: opt-levels 1, s, 3 and 20000 RNG outputs per set. Plus valgrind memcheck secret-taint of the kernels (inputs marked undefined; any tainted branch or address is a violation) and, in thorough, callgrind per-instruction/per-branch profile equality of the pipeline. Non-trivial = distinct inputs (distinct signatures / distinct kernel input digests). ",
+    rule_prefix="SanitizerCoverage (edge sequence + load/store address sequence, rolling hashes and counts) of dudect_keygen_sign_with_rng for RNG outputs {0^64, FF^64, all 512 single-bit values, all 512 single-zero-bit values, seeded random, plus up to 48 RNG outputs per set whose key-generation seed is predicted by the instrumented reference (run in constant-time-test mode over 24000 / 400000 candidates) to make A*s1+s2 wrap past q or below 0 before reduction} per set, and of each secret-handling kernel alone on in-domain variants {all-min, all-max, alternating, single spike, boundary values, random}: exactly one distinct trace must be observed per function (signatures must differ across inputs). quick: opt-level 3; thorough: opt-levels 1, s, 3, the crate's release (s + LTO + 1 codegen unit) and bench (3 + LTO) profiles, and 20000 RNG outputs per set. Plus valgrind memcheck secret-taint of the kernels (inputs marked undefined; any tainted branch or address is a violation) and, in thorough, callgrind per-instruction/per-branch profile equality of the pipeline; these machine-level stages run on the harness build and on builds reproducing the crate's own dev/release/bench profiles. Non-trivial = distinct inputs (distinct signatures / distinct kernel input digests). ",
     stages=[dict(name="c14-sancov", kind="py", func="c14_sancov"),
             dict(name="c14-taint", kind="py", func="c14_taint"),
             dict(name="c14-callgrind", kind="py", func="c14_callgrind", tiers=["thorough"])],
@@ -645,67 +825,61 @@ PLANS["C13"]["stages"].append(dict(name="c13-fuzz", kind="py", func="c13_fuzz", 
 def c14_taintpipe(a):
     """memcheck secret-taint of the WHOLE constant-time-test pipeline: the RNG output (xi || rnd) is marked
     undefined; every tainted branch/address is a report; reports are allowed only at the one public-data
-    site whose outcome cannot vary (bit_unpack's range check inside expand_mask, gamma1 a power of two)."""
+    site whose outcome cannot vary (bit_unpack's range check inside expand_mask, gamma1 a power of two).
+    Run on the harness build and on builds that mirror the crate's own dev / release / bench profiles:
+    the compiler decides per profile whether a branch-free source expression stays branch-free."""
     if not shutil.which("valgrind"):
         raise Inconclusive("valgrind not available")
-    exe = _build_ct(a, None)
+    repo = a.get("repo", "/repo")
+    profiles = [None, "release", "bench"] if a["tier"] == "quick" else [None, "dev", "release", "bench"]
+    exes = {p: _build_ct(a, None, p) for p in profiles}
     t0 = time.time()
     runs = 3 if a["tier"] == "quick" else 24
     violations, samples, counters = [], [], {}
     evals = 0
 
-    def one(st):
-        out = os.path.join(a["work"], f"c14-taintpipe-{st}.json")
-        r = subprocess.run(["valgrind", "--error-exitcode=0", "--error-limit=no", "--num-callers=10", exe, "taintpipe", str(st), str(a["seed"]), str(runs), out],
+    def one(job):
+        prof, st = job
+        out = os.path.join(a["work"], f"c14-taintpipe-{prof or 'harness'}-{st}.json")
+        if os.path.exists(out):
+            os.remove(out)
+        r = subprocess.run(["valgrind", "--error-exitcode=0", "--error-limit=no", "--num-callers=14", exes[prof], "taintpipe", str(st), str(a["seed"]), str(runs), out],
                            capture_output=True, text=True, timeout=3600)
-        return st, out, r
+        return prof, st, out, r
     from concurrent.futures import ThreadPoolExecutor
-    with ThreadPoolExecutor(max_workers=3) as ex:
-        results = list(ex.map(one, (44, 65, 87)))
-    for st, out, r in results:
+    with ThreadPoolExecutor(max_workers=12) as ex:
+        results = list(ex.map(one, [(p, st) for p in profiles for st in (44, 65, 87)]))
+    for prof, st, out, r in results:
+        pname = prof or "harness"
         if not os.path.exists(out):
-            raise Inconclusive(f"taintpipe run failed: {r.stderr[-300:]}")
+            raise Inconclusive(f"taintpipe run failed ({pname}, {st}): {r.stderr[-300:]}")
         td = json.load(open(out))
         if not td.get("running_on_valgrind"):
             raise Inconclusive("client requests not honoured")
         evals += td["runs"]
-        lines = r.stderr.splitlines()
-        allowed, bad = 0, {}
-        for i, line in enumerate(lines):
-            if "Conditional jump or move depends on uninitialised" in line or "Use of uninitialised value" in line:
-                named = []
-                for x in lines[i + 1:i + 11]:
-                    m = re.search(r"(?:at|by) 0x[0-9A-F]+: (.+?) \((.*?)\)", x)
-                    if not m:
-                        break
-                    if m.group(1) != "UnknownInlinedFun":
-                        named.append((m.group(1), m.group(2)))
-                fn0 = named[0][0] if named else "?"
-                fn1 = named[1][0] if len(named) > 1 else "?"
-                names = [n for n, _ in named]
-                # allowed: the report lies inside expand_mask, reached only through bit_unpack's range check
-                # (is_in_range and the core iterator adapters it is made of), however the compiler inlined them
-                ok_site = False
-                if "fips204::hashing::expand_mask" in names:
-                    inner = names[:names.index("fips204::hashing::expand_mask")]
-                    ok_site = "fips204::conversion::bit_unpack" in inner and all(
-                        f == "fips204::conversion::bit_unpack" or "is_in_range" in f or f.startswith(("core::", "<core::", "{closure")) or f.startswith("all<")
-                        for f in inner)
-                if ok_site:
-                    allowed += 1
-                else:
-                    bad.setdefault((fn0, fn1), []).append(" <- ".join(f"{n} ({l})" for n, l in named[:4]))
-        counters[f"taintpipe_ML-DSA-{st}_allowed_public_site_reports"] = allowed
-        counters[f"taintpipe_ML-DSA-{st}_other_reports"] = sum(len(v) for v in bad.values())
-        for (fn0, fn1), v in bad.items():
-            violations.append(dict(signature=f"C14|pipeline-taint|{fn0}|{fn1}",
-                                   detail=f"memcheck (ML-DSA-{st}): branch or address depends on the RNG output inside {fn0} called from {fn1}: {v[0]}",
-                                   replay=dict(kind="c14-taintpipe", set=st, seed=a["seed"])))
-        samples.append(dict(set=st, runs=td["runs"], tainted_input="xi || rnd (64 bytes)", allowed_reports_at="bit_unpack <- expand_mask (range check, constant outcome)",
-                            allowed=allowed, other=sum(len(v) for v in bad.values())))
+        chains = _taint_chains(repo, r.stderr)
+        allowed = sum(n for ch, n in chains.items() if ch[:3] == ALLOWED_TAINT_CHAIN)
+        bad = {ch: n for ch, n in chains.items() if ch[:3] != ALLOWED_TAINT_CHAIN}
+        if allowed == 0:
+            # the allowed site is reached on every run: its absence means the taint did not propagate
+            raise Inconclusive(f"taintpipe ({pname}, ML-DSA-{st}): no report at the allowed public-data site: the secret taint was not observed at all")
+        counters[f"taintpipe_{pname}_ML-DSA-{st}_allowed_public_site_reports"] = allowed
+        counters[f"taintpipe_{pname}_ML-DSA-{st}_other_reports"] = sum(bad.values())
+        heads = {}
+        for ch, n in bad.items():
+            heads.setdefault(ch[0] if ch else "?", []).append((ch, n))
+        for head, lst in sorted(heads.items()):
+            where = "; ".join(" <- ".join(ch[:5]) + f" (x{n})" for ch, n in sorted(lst))
+            violations.append(dict(signature=f"C14|pipeline-taint|{pname}|ML-DSA-{st}|{head}",
+                                   detail=f"memcheck ({pname} profile, ML-DSA-{st}): a branch or address depends on the RNG output inside {head}: {where}",
+                                   replay=dict(kind="c14-taintpipe", set=st, seed=a["seed"], profile=pname)))
+        if st == 44 or bad:
+            samples.append(dict(profile=pname, set=st, runs=td["runs"], tainted_input="xi || rnd (64 bytes)",
+                                allowed_reports_at=" <- ".join(ALLOWED_TAINT_CHAIN) + " (range check, constant outcome)",
+                                allowed=allowed, other=sum(bad.values()), other_chains=[" <- ".join(ch) for ch in sorted(bad)]))
     return dict(property_id="C14", stage="c14-taintpipe", build="release+memcheck", tier=a["tier"], seed=a["seed"], rule="", exhaustive=False,
-                evaluations=evals, distinct_nontrivial=evals, samples=samples, counters=counters, violations=violations, inconclusive=[], wall_s=time.time() - t0)
+                evaluations=evals, distinct_nontrivial=evals, samples=samples[:4], counters=counters, violations=violations, inconclusive=[], wall_s=time.time() - t0)
 
 
 PLANS["C14"]["stages"].insert(2, dict(name="c14-taintpipe", kind="py", func="c14_taintpipe"))
-PLANS["C14"]["rule_prefix"] += "Also the whole pipeline under memcheck with the RNG output marked undefined: tainted branches/addresses are allowed only at bit_unpack's range check inside expand_mask (constant outcome). "
+PLANS["C14"]["rule_prefix"] += "Also the whole pipeline under memcheck with the RNG output marked undefined, per profile: reports are attributed to crate source functions through debug-info lines; tainted branches/addresses are allowed only at is_in_range <- bit_unpack <- expand_mask (range check with a constant outcome), which must be seen on every run. "
